@@ -136,6 +136,33 @@ CLAIMED = {
              "are multiples of the core count (established by propose_weight_buffering).",
         technique="dynamic symbolic execution of the real Python functions over z3 proxies (symx) with the C codec stubbed to symbolic-length streams; counterexample replay",
         design="DESIGN.md §3 C08"),
+    "C02": dict(
+        text="Bounded solver verdict on the real address-generation kernels (a lemma set, not the end-to-end property): for a feature map with "
+             "symbolic height, tile split, base addresses and element coordinate (NHWC/NHCWB16, enumerated width/depth/element size) the byte "
+             "the hardware tile/stride rule addresses equals get_address() and lies inside an address range get_address_ranges() declares; "
+             "check_mem_limits raises exactly when a declared range leaves its region or names an unknown region; a real Tensor used as a "
+             "rolling buffer addresses every row of a stripe's box, through the tiles addresses_for_rolling_buffer returns, at slot "
+             "(row mod buffer height) inside its storage; get_region/mem_type_size/get_mem_limits_for_regions give fast scratch its own, "
+             "arena_cache_size-limited region exactly when spilling is enabled and region 0 only to permanent memory types. The weight/DMA "
+             "address arithmetic is decided under C08.",
+        note="Partial: the composition allocator address + footprint <= published region sizes over a compiled network is outside (no "
+             "end-to-end compilation in this technique); graph-level format decisions are outside. Trusted: z3, symx proxies, the tile/stride "
+             "addressing rule restated in the harness.",
+        technique="dynamic symbolic execution of the real Python functions over z3 proxies (symx), bounded; restated addressing-rule oracle; counterexample replay",
+        design="DESIGN.md §3 C02"),
+    "C03": dict(
+        text="Bounded solver-guided verdict on the mechanisms that decide which memory an operation reads (a lemma set): the REAL "
+             "lut.optimize_high_level_cmd_stream over every history of up to 3 (thorough 4) LUT-using operations (table size, equal-to-earlier "
+             "or new values, clobbering non-LUT stripes on 16-bank configurations) against a byte-owner model of the SHRAM LUT window: every "
+             "operation's lut_index points at bytes holding exactly its table; the REAL stripe generator on a symbolic-height 2-op cascade: "
+             "rows a consumer stripe reads have been produced and not yet overwritten in the rolling buffer (C10 cascade lemma); weight "
+             "double buffering: slice k uses buffer k mod n with its DMA before its stripe, and the buffer whose live range "
+             "extract_live_ranges_from_schedule keeps to the end (expression taken from its AST) is the one the last slice uses.",
+        note="Partial: per-byte last-writer tracking over emitted streams of compiled networks, live-range extraction and buffer sizing wiring "
+             "over real schedules are outside. Trusted: z3, symx proxies, stand-in schedule/tensor objects, the SHRAM LUT window model. The "
+             "recorded stride-3 rolling-buffer finding is reported as KNOWN-FINDING.",
+        technique="dynamic symbolic execution of the real Python functions over z3 proxies (symx), all feasible paths within the bound; counterexample replay",
+        design="DESIGN.md §3 C03"),
 }
 
 NOT_APPLICABLE = {
